@@ -95,6 +95,10 @@ pub fn oracle_c04(c: &InvCtx) -> Option<Violation> {
         "main-returned" => {}
         _ => return None,
     }
+    if !observed_failures(c).is_empty() {
+        // a failing script ends the run with an error: only termination is C04's business here
+        return None;
+    }
     if r.code != 0 {
         return viol("nonzero-exit", format!("code={}", r.code), format!("exit status {} although every script succeeds; stderr: {}", r.code, tail(&r.stderr)));
     }
@@ -312,9 +316,21 @@ pub fn oracle_c11(c: &InvCtx) -> Option<Violation> {
     oracle_c11_instances(c)
 }
 
-/// C11 (iii): at most one live instance per service, in one-shot and watch runs.
+/// C11 (iii): at most one live instance per service, in one-shot and watch runs; and every
+/// service is stopped (killed and reaped) when zinoma exits.
 pub fn oracle_c11_instances(c: &InvCtx) -> Option<Violation> {
     let r = c.r;
+    if r.main_returned() {
+        if let Some(f) = &r.footer {
+            if let Some(p) = f.procs.iter().find(|p| p.kind == "service" && (p.state == "running" || (p.state == "killed" && !p.reaped))) {
+                return viol(
+                    "service-not-stopped-at-exit",
+                    format!("service={} state={}", p.id, p.state),
+                    format!("zinoma returned while service {} was {} ({})", p.id, p.state, if p.reaped { "reaped" } else { "not reaped" }),
+                );
+            }
+        }
+    }
     let mut by_id: BTreeMap<&str, Vec<&crate::run::ProcInst>> = BTreeMap::new();
     for p in r.procs.iter().filter(|p| p.kind == "service") {
         by_id.entry(p.id.as_str()).or_default().push(p);
@@ -411,15 +427,43 @@ impl Property for C04 {
         }
     }
     fn rule(&self) -> &'static str {
-        "one case = one generated project (shape families chain/diamond/fan-in/fan-out/forest/shared-service/layered/dep+dependent, 4% deep or wide at the shipped queue capacity 64), one request list and one seeded schedule (fifo / random-walk / PCT / delay-one) with a seeded hash order; every script succeeds. evaluations = simulated invocations. distinct_nontrivial = distinct hashes of the order of channel operations, process and signal events among runs in which at least one target with a dependency was started"
+        "one case = one generated project (shape families chain/diamond/fan-in/fan-out/forest/shared-service/layered/dep+dependent, 4% deep or wide at the shipped queue capacity 64), one request list (every 50th case: 34-90 roots on one command line) and one seeded schedule (fifo / random-walk / PCT / delay-one) with a seeded hash order; every script terminates, and succeeds except in 15 % of the cases where one build exits non-zero or dies by signal (then only termination is required). evaluations = simulated invocations. distinct_nontrivial = distinct hashes of the order of channel operations, process and signal events among runs in which at least one target with a dependency was started"
     }
     fn assumptions(&self) -> Vec<&'static str> {
         vec!["scripts are virtual processes that terminate when the scheduler fires their exit event", "stall detection is exact because the simulated process has a single thread"]
     }
     fn generate(&self, rng: &mut Rng, case_no: u64) -> Scenario {
         let mut sc = gen::gen_graph(rng, &GraphOpts { big_permille: 30, force_wide: case_no % 100 == 17, ..Default::default() });
-        let args = gen::gen_request(rng, &sc);
-        let inv = standard_invocation(rng, &sc, args);
+        let mut args = gen::gen_request(rng, &sc);
+        if case_no % 50 == 29 || rng.chance(2) {
+            // many roots on one command line (more than half the queue capacity): every target
+            // of a mostly flat project requested by name
+            let extra = rng.range(34, 90);
+            for i in 0..extra {
+                let mut t = Target::new(&format!("r{}", i), if rng.chance(85) { Kind::Build } else { Kind::Aggregate });
+                if rng.chance(30) && !sc.projects[0].targets.is_empty() {
+                    let d = rng.pick(&sc.projects[0].targets).name.clone();
+                    if sc.target(0, &d).map(|x| x.kind != Kind::Service || t.kind != Kind::Aggregate).unwrap_or(true) {
+                        t.deps.push(DepRef { project: 0, target: d, via_dep: true, via_output: false, qualified: false });
+                    }
+                }
+                sc.projects[0].targets.push(t);
+            }
+            args = sc.projects[0].targets.iter().filter(|t| t.name.starts_with('r')).map(|t| t.name.clone()).collect();
+            rng.shuffle(&mut args);
+            sc.label = format!("many-roots-{}", sc.label);
+        }
+        let mut inv = standard_invocation(rng, &sc, args);
+        if rng.chance(15) {
+            // termination must not depend on every script succeeding
+            let req = model::requested(&sc, 0, &inv.args);
+            let clo: Vec<Tid> = model::closure(&sc, &req).into_iter().filter(|t| model::kind_of(&sc, t) == Some(Kind::Build)).collect();
+            if !clo.is_empty() {
+                let t = rng.pick(&clo).clone();
+                let kind = *rng.pick(&["exit=1", "sig=9"]);
+                inv.plan.faults.push(Fault { site: format!("proc.exit:{}", sc.sim_id(t.0, &t.1)), occurrence: 1, kind: kind.into() });
+            }
+        }
         sc.steps.push(Step::Invoke(inv));
         sc
     }
@@ -526,6 +570,22 @@ impl Property for C08 {
         "one case = project with shared dependencies + a priming invocation of every root + a second invocation with a request list containing duplicates, both spellings and dependency+dependent pairs, each under its own seeded schedule; per invocation and target the oracle counts script starts and skips (exactly one inside the closure on success, at most one always, zero outside) and compares the bytes and mtimes of outsiders' state files and outputs before/after. distinct_nontrivial = distinct order hashes among runs whose closure contains a target with two or more requesters"
     }
     fn generate(&self, rng: &mut Rng, _case: u64) -> Scenario {
+        if rng.chance(30) {
+            // several projects with the same target names: names must resolve inside the
+            // declaring project, or a target outside the closure runs
+            let mut sc = gen::gen_io(rng, &gen::IoOpts { multi_project_pct: 100, max_targets: 7, cmd_pct: 10 });
+            for _ in 0..rng.range(1, 2) {
+                let args = gen::gen_request_io(rng, &sc, 0);
+                if args.is_empty() {
+                    continue;
+                }
+                let inv = super::history::plain_invocation(rng, &sc, 0, args);
+                sc.steps.push(Step::Invoke(inv));
+            }
+            if !sc.steps.is_empty() {
+                return sc;
+            }
+        }
         let mut sc = gen::gen_graph(rng, &GraphOpts { max_n: 9, ..Default::default() });
         if rng.chance(60) {
             // prime: request everything that nobody depends on, services excluded
@@ -692,7 +752,7 @@ impl Property for C11 {
     }
     fn generate(&self, rng: &mut Rng, _case: u64) -> Scenario {
         if rng.chance(30) {
-            return super::watch::gen_watch(rng, &super::watch::WatchOpts { service_bias: true, ..Default::default() });
+            return super::watch::gen_watch(rng, &super::watch::WatchOpts { service_bias: true, fail_pct: 25, ..Default::default() });
         }
         let mut sc = gen::gen_graph(rng, &GraphOpts { max_n: 8, ..Default::default() });
         // make services more frequent
